@@ -40,8 +40,13 @@ structure Scope where
   frames : List Frame
   /-- own node list -/
   body : Body
-  /-- keys of `__M_locals = __M_dict_builtin(…)` when emitted -/
+  /-- keys of `__M_locals = __M_dict_builtin(…)` when emitted, in emission order -/
   mlocals : Option (List Name) := none
+  /-- further `_Identifiers` constructed (and reserved-checked) with this scope: `callable_identifiers` of a `<%call>` -/
+  extraIds : List Ids := []
+  /-- names the template binds in this scope: assignment forms (through its blocks), arguments, names of its nested
+  defs / blocks -/
+  binds : List Name := []
   deriving Repr
 
 def Scope.ids (s : Scope) : Ids := (s.frames.headD {}).ids
@@ -78,13 +83,15 @@ def scopesIn (c : Cfg) (mods : Ids) (inDef useLoc emitTop : Bool) (fr : Frame) (
         let ids := visitDefSelf (mods.branch false) true f a u b
         let fr' : Frame := { ids, params := a, own := ownOf b, defs := closOf false b }
         let p' := [PathEl.fn (renderName f)]
-        { path := p', kind := .topDef, tag := t, inDef := true, toplevel := true, frames := [fr'], body := b }
+        { path := p', kind := .topDef, tag := t, inDef := true, toplevel := true, frames := [fr'], body := b,
+          binds := declsThrough b ++ a ++ closOf false b ++ [f] }
           :: scopesIn c mods true false false fr' [] p' true false b
       else if f ∈ toWrite c fr.ids none then
         let ids := visitDefSelf (fr.ids.branch true) false f a u b
         let fr' : Frame := { ids, params := a, own := ownOf b, defs := closOf false b, useLocals := useLoc }
         let p' := path ++ [PathEl.fn f]
-        { path := p', kind := .nestedDef, tag := t, inDef, toplevel := false, frames := fr' :: fr :: rest, body := b }
+        { path := p', kind := .nestedDef, tag := t, inDef, toplevel := false, frames := fr' :: fr :: rest, body := b,
+          binds := declsThrough b ++ a ++ closOf false b }
           :: scopesIn c mods inDef useLoc false fr' (fr :: rest) p' true false b
       else [])
       ++ scopesIn c mods inDef useLoc emitTop fr rest path own root r
@@ -95,7 +102,8 @@ def scopesIn (c : Cfg) (mods : Ids) (inDef useLoc emitTop : Bool) (fr : Frame) (
             let ids := visitBlockSelf (fr.ids.branch true) none fn a u b
             let fr' : Frame := { ids, params := a, own := ownOf b, defs := closOf false b, useLocals := useLoc }
             let p' := path ++ [PathEl.fn fn]
-            { path := p', kind := .anonBlock, tag := t, inDef, toplevel := false, frames := fr' :: fr :: rest, body := b }
+            { path := p', kind := .anonBlock, tag := t, inDef, toplevel := false, frames := fr' :: fr :: rest, body := b,
+              binds := declsThrough b ++ a ++ closOf false b }
               :: scopesIn c mods inDef useLoc false fr' (fr :: rest) p' true false b
           else []
        | some n =>
@@ -103,7 +111,8 @@ def scopesIn (c : Cfg) (mods : Ids) (inDef useLoc emitTop : Bool) (fr : Frame) (
             let ids := (visitBlockSelf (mods.branch false) (some n) fn a u b).addArgs [pageargsName]
             let fr' : Frame := { ids, params := a ++ [pageargsName], own := ownOf b, defs := closOf false b }
             let p' := [PathEl.fn (renderName n)]
-            { path := p', kind := .namedBlock, tag := t, inDef := true, toplevel := true, frames := [fr'], body := b }
+            { path := p', kind := .namedBlock, tag := t, inDef := true, toplevel := true, frames := [fr'], body := b,
+              binds := declsThrough b ++ a ++ closOf false b ++ [n] }
               :: scopesIn c mods true false false fr' [] p' true false b
           else [])
       ++ scopesIn c mods inDef useLoc emitTop fr rest path false false b
@@ -122,7 +131,8 @@ def scopesIn (c : Cfg) (mods : Ids) (inDef useLoc emitTop : Bool) (fr : Frame) (
         let pB := path ++ [PathEl.ccall t, PathEl.body]
         callDefsIn c mods inDef useCD cal ccD (fr :: rest) (path ++ [PathEl.ccall t]) b
         ++ [{ path := pB, kind := .callBody, tag := t, inDef, toplevel := false,
-              frames := frB :: ccB :: fr :: rest, body := b }]
+              frames := frB :: ccB :: fr :: rest, body := b, extraIds := [cal],
+              binds := declsThrough b ++ d ++ closOf false b }]
         ++ scopesIn c mods inDef ownUse false frB (ccB :: fr :: rest) pB true false b
       else [])
       ++ scopesIn c mods inDef useLoc emitTop fr rest path own root r
@@ -141,14 +151,16 @@ def callDefsIn (c : Cfg) (mods : Ids) (inDef useCD : Bool) (cal : Ids) (ccD : Fr
       (let ids := visitDefSelf (cal.branch false) false f a u b
        let fr' : Frame := { ids, params := a, own := ownOf b, defs := closOf false b, useLocals := useCD }
        let p' := path ++ [PathEl.fn f]
-       { path := p', kind := .callDef, tag := t, inDef, toplevel := false, frames := fr' :: ccD :: rest, body := b }
+       { path := p', kind := .callDef, tag := t, inDef, toplevel := false, frames := fr' :: ccD :: rest, body := b,
+         binds := declsThrough b ++ a ++ closOf false b }
          :: scopesIn c mods inDef useCD false fr' (ccD :: rest) p' true false b)
       ++ callDefsIn c mods inDef useCD cal ccD rest path r
   | .block t nm fn a u b r =>
       (let ids := visitBlockSelf (cal.branch false) nm fn a u b
        let fr' : Frame := { ids, params := a, own := ownOf b, defs := closOf false b, useLocals := useCD }
        let p' := path ++ [PathEl.fn fn]
-       { path := p', kind := .callDef, tag := t, inDef, toplevel := false, frames := fr' :: ccD :: rest, body := b }
+       { path := p', kind := .callDef, tag := t, inDef, toplevel := false, frames := fr' :: ccD :: rest, body := b,
+         binds := declsThrough b ++ a ++ closOf false b }
          :: scopesIn c mods inDef useCD false fr' (ccD :: rest) p' true false b)
       ++ callDefsIn c mods inDef useCD cal ccD rest path r
 end
@@ -169,7 +181,8 @@ def bodyScope (c : Cfg) (t : Body) : Scope :=
   let fr := bodyFrame c t
   { path := [PathEl.fn (renderName "body".toList)], kind := .body, tag := 0, inDef := false, toplevel := true,
     frames := [fr], body := t,
-    mlocals := if fr.useLocals then some (dedup fr.ids.argDecl) else none }
+    mlocals := if fr.useLocals then some (sortNames (dedup fr.ids.argDecl)) else none,
+    binds := declsThrough t ++ pageArgsOf t ++ closOf true t ++ topsOf true t }
 
 /-- every generated function of the template with its `_Identifiers` and closure chain -/
 def allScopes (c : Cfg) (t : Body) : List Scope :=
@@ -182,7 +195,7 @@ def mainIds (c : Cfg) (t : Body) : Ids := visit (({ declared := c.moduleDeclared
 /-- reserved names found in `locally_declared` of some constructed `_Identifiers`:
 compilation raises `NameConflictError` iff this list is non-empty -/
 def compileConflicts (c : Cfg) (t : Body) : List Name :=
-  (mainIds c t).conflicts c ++ (allScopes c t).flatMap (fun s => s.ids.conflicts c)
+  (mainIds c t).conflicts c ++ (allScopes c t).flatMap (fun s => (s.ids :: s.extraIds).flatMap (fun i => i.conflicts c))
 
 /-- names bound anywhere in the template by a form `_Identifiers` records in `locally_declared` -/
 def declsDeep : Body → List Name
